@@ -73,6 +73,12 @@ type Gen struct {
 	schemes []string
 	Tier    string
 
+	// Soak, when set, names the ecosystem every run of the batch is forced to use,
+	// with wide constructor-heavy workloads: thousands of distinct texts pass
+	// through one process, which is what size-bounded caches need to start
+	// evicting.
+	Soak string
+
 	templates map[string][]string // ecosystem -> range templates
 	words     map[string][]string // ecosystem -> alphabetic tokens seen in its versions
 	seps      map[string][]string // ecosystem -> separators its compound ranges use
@@ -267,6 +273,9 @@ func (g *Gen) Spec(seed uint64, index int) Spec {
 	fams := map[string]*family{}
 	sharedBase := ""
 	forced := g.names[index%len(g.names)]
+	if g.Soak != "" && g.class[g.Soak] != nil {
+		forced = g.Soak
+	}
 	for k := 0; k < nEco; k++ {
 		n := forced
 		if k > 0 {
@@ -383,7 +392,7 @@ func (g *Gen) Spec(seed uint64, index int) Spec {
 
 	// wide runs: many distinct constructor texts, each used again and again by
 	// every task (what a small hashed or direct-mapped cache needs to collide)
-	wide := p.chance(1, 6)
+	wide := p.chance(1, 6) || (g.Soak != "" && p.chance(3, 4))
 	if wide {
 		for e, ep := range sp.Ecos {
 			ec := g.class[ep.Name]
